@@ -1,17 +1,111 @@
 package main
 
-// Counterexample replay (see replay_*.go for scenario kinds).
+// Counterexample replay on the real code.
+//
+// A failed obligation names the violated property; the harness in
+// /verif/replay/harness_test.go (injected with `go test -overlay`, nothing is
+// written to the repository) then searches small deterministic scenario spaces
+// for an input on which the REAL code violates that property, using runtime
+// oracles written from the property statements. A scenario it finds is a
+// confirmed failing input. The search proves nothing; it only concretises.
 
 import (
+	"context"
 	"encoding/json"
+	"fmt"
 	"os"
+	"os/exec"
 	"path/filepath"
 	"strings"
+	"time"
 )
 
-// writeReplay writes the replay file for a failed obligation and tries to
-// confirm a failing input on the real code. Returns the path and whether a
-// failing input was confirmed.
+var replayFamilies = map[string][]string{
+	"C01": {"lifecycle"}, "C02": {"lifecycle", "batch"}, "C03": {"flow"}, "C04": {"lifecycle", "flow", "batch"},
+	"C05": {"lifecycle", "flow"}, "C06": {"batch"}, "C07": {"batch"}, "C08": {"pool", "batch"}, "C09": {"batch"},
+	"C10": {"flow"}, "C11": {"batch"}, "C12": {"pool"}, "C13": {}, "C14": {"store"}, "C15": {"value"},
+	"C16": {"bind"}, "C17": {"lifecycle", "batch"}, "C18": {"lifecycle", "batch"}, "C19": {"config"}, "C20": {"lifecycle", "batch"},
+}
+
+type replayOutcome struct {
+	Family    string          `json:"family"`
+	Property  string          `json:"property"`
+	Tried     int             `json:"scenarios_tried"`
+	Failing   json.RawMessage `json:"failing_scenario,omitempty"`
+	Violation string          `json:"violation,omitempty"`
+	Error     string          `json:"error,omitempty"`
+}
+
+func harnessPath() string {
+	if p := os.Getenv("FLYTVC_HARNESS"); p != "" {
+		return p
+	}
+	exe, err := os.Executable()
+	if err == nil {
+		p := filepath.Join(filepath.Dir(filepath.Dir(exe)), "replay", "harness_test.go")
+		if _, err := os.Stat(p); err == nil {
+			return p
+		}
+	}
+	return "/verif/replay/harness_test.go"
+}
+
+// runHarness runs one family (or one recorded scenario) against repo.
+func runHarness(repo, family, prop, one string) replayOutcome {
+	out := replayOutcome{Family: family, Property: prop}
+	tmp, err := os.MkdirTemp("", "flytreplay")
+	if err != nil {
+		out.Error = err.Error()
+		return out
+	}
+	defer os.RemoveAll(tmp)
+	ov := filepath.Join(tmp, "ov.json")
+	res := filepath.Join(tmp, "res.json")
+	abs, _ := filepath.Abs(repo)
+	os.WriteFile(ov, []byte(fmt.Sprintf(`{"Replace":{%q:%q}}`, filepath.Join(abs, "zz_verif_replay_test.go"), harnessPath())), 0o644)
+	ctx, cancel := context.WithTimeout(context.Background(), 150*time.Second)
+	defer cancel()
+	cmd := exec.CommandContext(ctx, "go", "test", "-overlay", ov, "-vet=off", "-count=1", "-timeout", "120s", "-run", "^TestVerifReplay$", ".")
+	cmd.Dir = abs
+	cmd.Env = append(os.Environ(), "GOFLAGS=-mod=mod", "GOPROXY=off", "GOSUMDB=off", "GOTOOLCHAIN=local",
+		"VERIF_REPLAY_FAMILY="+family, "VERIF_REPLAY_PROPERTY="+prop, "VERIF_REPLAY_ONE="+one, "VERIF_REPLAY_OUT="+res)
+	b, err := cmd.CombinedOutput()
+	data, rerr := os.ReadFile(res)
+	if rerr != nil {
+		msg := string(b)
+		if len(msg) > 1500 {
+			msg = msg[len(msg)-1500:]
+		}
+		out.Error = fmt.Sprintf("harness produced no result (%v): %s", err, msg)
+		return out
+	}
+	json.Unmarshal(data, &out)
+	return out
+}
+
+// searchFailingInput looks for a concrete input violating prop on the real code.
+func searchFailingInput(e *Engine, prop string) (found *replayOutcome, all []replayOutcome) {
+	for _, fam := range replayFamilies[prop] {
+		o := runHarness(e.repo, fam, prop, "")
+		all = append(all, o)
+		if o.Violation != "" {
+			oc := o
+			return &oc, all
+		}
+	}
+	return nil, all
+}
+
+type replayCache struct {
+	done  bool
+	found *replayOutcome
+	all   []replayOutcome
+}
+
+var replayMemo = map[string]*replayCache{}
+
+// writeReplay writes the replay file for a failed obligation. The failing-input
+// search runs once per property and process.
 func writeReplay(e *Engine, outDir, prop, name string, obs []*Oblig, doReplay bool) (string, bool) {
 	os.MkdirAll(filepath.Join(outDir, "replays"), 0o755)
 	path := filepath.Join(outDir, "replays", prop+"-"+sanitize(name)+".json")
@@ -23,26 +117,38 @@ func writeReplay(e *Engine, outDir, prop, name string, obs []*Oblig, doReplay bo
 		}
 	}
 	rec := map[string]any{
-		"property":     prop,
-		"obligation":   name,
-		"kind":         o.Kind,
-		"result":       o.Result,
-		"solver":       o.Solver,
-		"event_trace":  o.Trace,
-		"goal":         o.Goal,
+		"property":      prop,
+		"obligation":    name,
+		"kind":          o.Kind,
+		"result":        o.Result,
+		"solver":        o.Solver,
+		"event_trace":   o.Trace,
+		"goal":          o.Goal,
 		"solver_output": strings.TrimSpace(o.Raw),
-		"instances":    len(obs),
+		"instances":     len(obs),
 	}
 	if o.Model != "" {
 		m := o.Model
 		if len(m) > 20000 {
 			m = m[:20000]
 		}
-		rec["model"] = m
+		rec["solver_model"] = m
 	}
 	confirmed := false
 	if doReplay {
-		confirmed = tryReplay(e, outDir, prop, name, obs, rec)
+		c := replayMemo[prop]
+		if c == nil {
+			c = &replayCache{}
+			replayMemo[prop] = c
+			c.found, c.all = searchFailingInput(e, prop)
+			c.done = true
+		}
+		rec["failing_input_search"] = c.all
+		if c.found != nil {
+			confirmed = true
+			rec["failing_input"] = map[string]any{"family": c.found.Family, "scenario": c.found.Failing, "observed_on_real_code": c.found.Violation,
+				"how_to_rerun": fmt.Sprintf("/verif/replay.sh %s", path)}
+		}
 	}
 	rec["failing_input_confirmed"] = confirmed
 	b, _ := json.MarshalIndent(rec, "", " ")
@@ -50,6 +156,50 @@ func writeReplay(e *Engine, outDir, prop, name string, obs []*Oblig, doReplay bo
 	return path, confirmed
 }
 
-func tryReplay(e *Engine, outDir, prop, name string, obs []*Oblig, rec map[string]any) bool {
-	return false
+// replayFile re-runs the scenario recorded in a replay file against repo.
+func replayFile(repo, file string) int {
+	data, err := os.ReadFile(file)
+	if err != nil {
+		fmt.Fprintln(os.Stderr, err)
+		return 2
+	}
+	var rec struct {
+		Property     string `json:"property"`
+		Obligation   string `json:"obligation"`
+		Result       string `json:"result"`
+		SolverOutput string `json:"solver_output"`
+		FailingInput *struct {
+			Family   string          `json:"family"`
+			Scenario json.RawMessage `json:"scenario"`
+			Observed string          `json:"observed_on_real_code"`
+		} `json:"failing_input"`
+	}
+	if err := json.Unmarshal(data, &rec); err != nil {
+		fmt.Fprintln(os.Stderr, err)
+		return 2
+	}
+	fmt.Printf("property %s, failed obligation %s (%s)\n", rec.Property, rec.Obligation, rec.Result)
+	if rec.FailingInput == nil {
+		fmt.Println("no failing input was recorded for this obligation (no-failing-input-found); solver output:")
+		fmt.Println(rec.SolverOutput)
+		return 0
+	}
+	fmt.Printf("recorded failing input (%s): %s\nrecorded observation: %s\n", rec.FailingInput.Family, rec.FailingInput.Scenario, rec.FailingInput.Observed)
+	one := string(rec.FailingInput.Scenario)
+	switch rec.FailingInput.Family {
+	case "lifecycle", "flow", "batch":
+	default:
+		one = "" // seeded families re-run their whole (small) space
+	}
+	o := runHarness(repo, rec.FailingInput.Family, rec.Property, one)
+	if o.Error != "" {
+		fmt.Println("harness error:", o.Error)
+		return 2
+	}
+	if o.Violation != "" {
+		fmt.Printf("REPRODUCED on %s: %s\n", repo, o.Violation)
+		return 1
+	}
+	fmt.Printf("not reproduced on %s (%d scenarios tried)\n", repo, o.Tried)
+	return 0
 }
